@@ -145,9 +145,72 @@ def releases_case(ctx, case):
     ctx.nt('releases')
 
 
+SB_PLAY = ['sb chat', 'sb keep alive', 'sb position and look',
+           'teleport confirm']
+
+
+def via_connection_case(ctx, case):
+    """A serverbound core packet written through a logged-in Connection
+    carries the id and layout published for the release of THAT connection,
+    whatever context the packet object carried before.  case {release,
+    other, packet, values, how: 'kw'|'attr'|'none', queued}"""
+    from vlib import vnet, servers
+    from minecraft.networking.connection import ConnectionContext
+    rel, other, name = case['release'], case['other'], case['packet']
+    p = refproto.packet(rel, name)
+    if not p['present']:
+        return
+    ctx.ev()
+    m, cls = get_cls(p)
+    specs = specs_of(p)
+    vals = case['values']
+    srv = servers.Server({'version': rel, 'login': [('success',)],
+                          'play': {'bursts': [], 'end': 'silent'}})
+    world = vnet.World(servers=[srv])
+    with vnet.installed(world):
+        conn, o = servers.make_connection(world, allowed_versions={rel})
+        try:
+            conn.connect()
+            import time as _t
+            for _ in range(3000):
+                if world.links and world.links[0].script.play_started:
+                    break
+                _t.sleep(0.001)
+            if not world.wait_idle(world.links[0], conn):
+                from vlib.core import HarnessError
+                raise HarnessError('C07 via_connection: login did not '
+                                   'settle')
+            oc = ConnectionContext(protocol_version=other)
+            pk = cls(context=oc) if case['how'] == 'kw' else cls()
+            if case['how'] == 'attr':
+                pk.context = oc
+            for a, t in p['layout']:
+                setattr(pk, a, P5.to_py(specs[a], vals[a]))
+            nplay = len([f for f in srv.frames if f[0] == 'play'])
+            conn.write_packet(pk, force=not case.get('queued'))
+            world.wait_idle(world.links[0], conn)
+            conn.disconnect()
+            world.settle()
+        except Exception as e:
+            if type(e).__name__ == 'HarnessError':
+                raise
+            ctx.fail('via_connection', 'G2-write-raises', case, exc=e)
+            return
+    got = [(pid, bytes(pl)) for st_, pid, pl, comp in srv.frames
+           if st_ == 'play'][nplay:]
+    want = [(p['id'], refproto.encode_fields(p['layout'], vals))]
+    if got != want:
+        ctx.fail('via_connection', 'G1G2-frame-of-the-connections-release',
+                 case, [(i, b.hex()[:80]) for i, b in got],
+                 [(i, b.hex()[:80]) for i, b in want])
+        return
+    ctx.nt('via', rel, other, name, case['how'])
+
+
 membership_case = P4.reassigned(membership_case, 'release')
 packet_case = P4.reassigned(packet_case, 'release')
-COMPONENTS = {'membership': membership_case, 'packet': packet_case,
+COMPONENTS = {'via_connection': via_connection_case,
+              'membership': membership_case, 'packet': packet_case,
               'releases': releases_case}
 
 
@@ -220,9 +283,34 @@ def t_random(ctx, n):
     hyp(ctx, 'random', strat, body, n)
 
 
+def t_via_connection(ctx, releases):
+    k = 0
+    for rel in releases:
+        for name in SB_PLAY:
+            p = refproto.packet(rel, name)
+            if not p['present']:
+                continue
+            for other in (47, 340, 757):
+                if other == rel:
+                    continue
+                k += 1
+                via_connection_case(ctx, {
+                    'release': rel, 'other': other, 'packet': name,
+                    'values': boundary_values(p, rel, specs_of(p), k % 5),
+                    'how': ['kw', 'attr', 'none'][k % 3],
+                    'queued': bool(k % 2)})
+    ctx.sample({'release': releases[0], 'other': 757, 'packet': 'sb chat'},
+               'via_connection')
+
+
 def tasks(tier):
     q = tier == 'quick'
+    rels = list(refproto.RELEASES)
     tl = [('table', t_table, dict(rounds=12 if q else 40))]
+    for part in ([rels[::6], rels[3::6]] if q else
+                 [rels[i::6] for i in range(6)]):
+        tl.append(('via_connection_%d' % part[0], t_via_connection,
+                   dict(releases=part)))
     for i in range(6 if q else 14):
         tl.append(('random_%d' % i, t_random, dict(n=1500 if q else 25000)))
     return tl
